@@ -3,6 +3,7 @@ import Driver.Prim
 import Driver.Disk
 import Driver.Fs
 import Driver.TestGen
+import Driver.Cli
 
 def main (args : List String) : IO UInt32 := do
   match args with
@@ -15,5 +16,6 @@ def main (args : List String) : IO UInt32 := do
   | ["fs", "mem"] => Driver.lineLoop Driver.Fs.memStep GooseVerif.Model.Fs.MemFs.empty; return 0
   | ["fs", "dir"] => Driver.lineLoop Driver.Fs.dirStep GooseVerif.Model.Fs.Os.empty; return 0
   | ["tg"] => Driver.lineLoop Driver.TestGen.step (); return 0
+  | ["cli"] => Driver.lineLoop Driver.Cli.step (); return 0
   | ["wt"] => Driver.lineLoop Driver.Prim.wtStep (); return 0
   | _ => IO.eprintln "usage: driver <enc|prim|wt>"; return 2
